@@ -2,6 +2,7 @@ package rules
 
 import (
 	"go/types"
+	"sort"
 	"strings"
 
 	"golang.org/x/tools/go/ssa"
@@ -237,6 +238,21 @@ func (c *Ctx) RuleN(rule string, in func(*ssa.Function) bool) int {
 		return changed
 	}
 	for iter := 0; iter < 6 && collect(); iter++ {
+	}
+	// the optional sources themselves are part of what was examined (a tree in which
+	// every use goes through a checked accessor has sources but no bare dereference)
+	var srcNames []string
+	for fn := range opt {
+		if in == nil || in(fn) {
+			srcNames = append(srcNames, "result of "+name(fn))
+		}
+	}
+	for f, from := range optFields {
+		srcNames = append(srcNames, "field "+f.Name()+" (from "+shortID(from)+")")
+	}
+	sort.Strings(srcNames)
+	for _, sn := range srcNames {
+		c.R.Infof(rule, "-", "optional:"+sn, "-", "optional value tracked: "+sn)
 	}
 	// direct uses
 	for _, s := range sites {
